@@ -1194,7 +1194,7 @@ Section EIdle.
   Hypothesis Hnd : cont_dels new = [].
   Hypothesis Htp : tpipe (thr st' t) = tpipe (thr st t).
   Hypothesis Hfin : tfinal (thr st' t) = (if pn then [panic_i p0] else []) ++ tfinal (thr st t).
-  Hypothesis Hcur : forall x, tcur (thr st' t) = Some (CLSend x) -> In x (on_pipe (tpipe (thr st t)) (m14_lsend m')).
+  Hypothesis Hcur : wkr st t -> forall x, tcur (thr st' t) = Some (CLSend x) -> In x (on_pipe (tpipe (thr st t)) (m14_lsend m')).
   Hypothesis Hsp : xs <> [] \/ pn = true ->
                    wkr st t /\ tpipe (thr st t) = p0 /\ (pn = true -> exists x, In (x, HPipe p0) (pushes (tfinal (thr st t)))).
   Hypothesis Hdl : dl st' = dl st.
@@ -1270,7 +1270,7 @@ Section EIdle.
       destruct (Nat.eq_dec u t) as [->|Hne].
       + rewrite Hc, Hc', Nl. cbn [lpend flat_map]. rewrite <- !app_assoc. reflexivity.
       + destruct (ei_other u Hu Hne) as [O1 _]. rewrite O1, app_nil_r, (Ho u Hne). reflexivity.
-    - intros u x Hu Hcu. rewrite Tp. apply Wk in Hu. destruct (Nat.eq_dec u t) as [->|E]; [exact (Hcur x Hcu)|].
+    - intros u x Hu Hcu. rewrite Tp. apply Wk in Hu. destruct (Nat.eq_dec u t) as [->|E]; [exact (Hcur Hu x Hcu)|].
       rewrite (Ho u E) in Hcu. rewrite M2. apply in_or_app. left. apply (e_lscur _ _ _ R u x Hu Hcu).
     - intros q x. rewrite M3, M4, Uf, Pr. apply (e_lsdone _ _ _ R).
     - intros q. rewrite M5, Pr. intro H. destruct (e_term _ _ _ R q H) as [A [B [C [D E]]]].
@@ -1447,3 +1447,319 @@ Section ESpawn.
     - intros q' H. apply Pg. apply (e_exited _ _ _ R q' H).
   Qed.
 End ESpawn.
+
+Lemma e_msame : forall p st m m', ERel p st m -> r14_same m m' -> ERel p st m'.
+Proof.
+  intros p st m m' R [M1 M2 M3 M4 M5 M6 M7 M8 M9].
+  assert (Pg : forall q, prog14 st m' q <-> prog14 st m q) by (intro q; unfold prog14; rewrite M5; tauto).
+  constructor.
+  - rewrite M8. apply (e_bad _ _ _ R).
+  - rewrite M9. apply (e_nthr _ _ _ R).
+  - rewrite M9. apply (e_sp _ _ _ R).
+  - rewrite M1, M9. apply (e_owner _ _ _ R).
+  - apply (e_wuniq _ _ _ R).
+  - apply (e_wex _ _ _ R).
+  - apply (e_exw _ _ _ R).
+  - rewrite M2, M4, M5, M6, M7, M3. apply (e_noex _ _ _ R).
+  - apply (e_ins _ _ _ R).
+  - apply (e_uniq _ _ _ R).
+  - rewrite M2, M4. apply (e_ls _ _ _ R).
+  - rewrite M2. apply (e_lscur _ _ _ R).
+  - rewrite M3, M4. apply (e_lsdone _ _ _ R).
+  - rewrite M5. apply (e_term _ _ _ R).
+  - apply (e_hdel _ _ _ R).
+  - apply (e_hterm _ _ _ R).
+  - apply (e_hpos _ _ _ R).
+  - apply (e_hmain _ _ _ R).
+  - rewrite M5, M6. apply (e_panic _ _ _ R).
+  - apply (e_porder _ _ _ R).
+  - rewrite M6. apply (e_ufterm _ _ _ R).
+  - intros u Hu. destruct (e_wprog _ _ _ R u Hu) as [A|A]; [left; exact A|right; apply Pg; exact A].
+  - rewrite M7. intros q H. apply Pg. apply (e_exited _ _ _ R q H).
+Qed.
+
+Lemma e_idle_same : forall st st' m m' t new,
+  ERel ENone st m -> r14_same m m' -> nthr st' = nthr st -> (forall u, u <> t -> thr st' u = thr st u) ->
+  tcont (thr st t) = [] -> tcont (thr st' t) = new -> (forall j, In j new -> eqi j) -> cont_dels new = [] ->
+  tpipe (thr st' t) = tpipe (thr st t) -> tfinal (thr st' t) = tfinal (thr st t) ->
+  (wkr st t -> forall x, tcur (thr st' t) <> Some (CLSend x)) -> dl st' = dl st ->
+  (forall x h, slab_get (sl st) x = Some h -> slab_get (sl st') x = Some h) ->
+  (forall x q, slab_get (sl st') x = Some (HPipe q) -> slab_get (sl st) x = Some (HPipe q)) ->
+  ppsame st st' -> ERel ENone st' m'.
+Proof.
+  intros st st' m m' t new R [M1 M2 M3 M4 M5 M6 M7 M8 M9] Hn Ho Hc Hc' Hnew Hnd Htp Hfin Hcur Hdl Hold Hpipe Hpp.
+  destruct (eqi_list new Hnew) as [Nl [Nu [Np Nh]]].
+  apply (e_idle st st' m m' t new 0 [] false); auto.
+  - intro q. rewrite M2. destruct (q =? 0); rewrite app_nil_r; reflexivity.
+  - intro q. rewrite M6, andb_false_r, orb_false_r. reflexivity.
+  - intro q. rewrite Nl. destruct (q =? 0); reflexivity.
+  - intros m0 q Hin. exact (proj2 (proj2 (proj2 (proj2 (eqi_facts _ (Hnew _ Hin))))) m0 q eq_refl).
+  - intros W x Hx. exfalso. exact (Hcur W x Hx).
+  - intros [H|H]; [exfalso; apply H; reflexivity|discriminate H].
+Qed.
+
+(** bulk creation of plain wakers: no pipe handler appears *)
+Lemma fill_loop_slab : forall n st ev st' ev',
+  CInv (core st) -> fill_loop n st ev = (st', ev') ->
+  (forall x h, slab_get (sl st) x = Some h -> slab_get (sl st') x = Some h) /\
+  (forall x q, slab_get (sl st') x = Some (HPipe q) -> slab_get (sl st) x = Some (HPipe q)) /\
+  thr st' = thr st /\ dl st' = dl st /\ pps st' = pps st /\ nthr st' = nthr st.
+Proof.
+  induction n as [|n IH]; intros st ev st' ev' I H; cbn [fill_loop] in H.
+  - inversion H; subst. repeat split; auto.
+  - destruct (wh_add st (HPlain (1000000 + nfill st))) as [[st1 wi]|] eqn:E; [|inversion H; subst; repeat split; auto].
+    assert (Hh : HPlain (1000000 + nfill st) <> HReserved) by discriminate.
+    destruct (wh_add_post st _ st1 wi I Hh E) as [Hfresh [Hget [Hold [Ed [Et [En [Ew [Eu [Ec Ep]]]]]]]]].
+    pose proof (wh_add_new st _ st1 wi I Hh E) as Hnew.
+    assert (I1 : CInv (core st1)) by (eapply (add_model st _ st1 wi I); [|exact E]; discriminate).
+    assert (I2 : CInv (core (set_nfill st1 (nfill st + 1)))) by (eapply CInv_ceq; [|exact I1]; same_core).
+    destruct (IH _ _ _ _ I2 H) as [A1 [A2 [A3 [A4 [A5 A6]]]]]. split; [|split; [|split; [|split; [|split]]]].
+    + intros x h G. apply A1. apply Hold. exact G.
+    + intros x q G. apply A2 in G. destruct (Hnew x _ G) as [G0|[[_ G0]|G0]]; [exact G0|discriminate G0|discriminate G0].
+    + rewrite A3. exact Et.
+    + rewrite A4. exact Ed.
+    + rewrite A5. exact Ep.
+    + rewrite A6. exact En.
+Qed.
+
+Definition cmd_ok (c : cmd) : Prop := match c with CPNew q => 0 <= q | _ => True end.
+Definition pendE (t : tid) (c : cmd) (done : option retv) : epend :=
+  match c, done with CSpawn, Some RUnit => ESp t (-1) | CPNew q, Some RUnit => ESp t q | _, _ => ENone end.
+
+Lemma ghost_c14_plain : forall e, plain e -> is_ghost e = true -> c14_plain e.
+Proof. intros e P G. destruct e; cbn in *; try contradiction; try discriminate; auto. Qed.
+
+Lemma owner_of : forall st m u, ERel ENone st m -> (u < nthr st)%nat ->
+  get_tid u (m14_owner m) = if 0 <=? tpipe (thr st u) then Some (tpipe (thr st u)) else None.
+Proof.
+  intros st m u R Hu. pose proof (e_nthr _ _ _ R) as Nb. cbn in Nb.
+  destruct (Z.leb_spec 0 (tpipe (thr st u))) as [L|L].
+  - apply (e_owner _ _ _ R). rewrite Nb. auto.
+  - destruct (get_tid u (m14_owner m)) as [q|] eqn:E; [|reflexivity]. apply (e_owner _ _ _ R) in E. lia.
+Qed.
+
+Ltac eid s0 t R S1 Hc Hcu new :=
+  apply (e_idle_same s0 _ _ _ t new R S1);
+  [ reflexivity | intros ? ?; thr_simpl | exact Hc | thr_simpl | pe_q | reflexivity | thr_simpl | thr_simpl
+  | intros _ ?; cbn -[Nat.eqb]; unfold updN, th; rewrite ?Nat.eqb_refl; cbn -[Nat.eqb]; unfold updN, th; rewrite ?Nat.eqb_refl; cbn -[Nat.eqb]; unfold th in Hcu; rewrite ?Hcu; discriminate
+  | reflexivity | intros ? ? ?; assumption | intros ? ? ?; assumption | pe_pp ].
+
+Lemma begin_E : forall s0 m t c cs st2 ev0 done,
+  CInv (core s0) -> pristine s0 -> wfi s0 -> SlInv s0 -> PqInv s0 -> XInv s0 -> ERel ENone s0 m -> (t < nthr s0)%nat ->
+  tcont (thr s0 t) = [] -> tscript (thr s0 t) = c :: cs -> cmd_ok c ->
+  begin_cmd (upd_th s0 t (set_tret (set_tcur (set_tscript (th s0 t) cs) (Some c)) RUnit)) t c = (st2, ev0, done) ->
+  ERel (pendE t c done) st2 (fold_left m14r_step (evs t (ECmd c :: ev0)) m).
+Proof.
+  intros s0 m t c cs st2 ev0 done I P Wf S Q X R Ht Hc Hs Hok H.
+  set (s1 := upd_th s0 t (set_tret (set_tcur (set_tscript (th s0 t) cs) (Some c)) RUnit)) in *.
+  assert (P1 : pristine s1) by (unfold s1; prist s0 t).
+  assert (I1 : CInv (core s1)) by (eapply CInv_ceq; [|exact I]; unfold s1; same_core).
+  destruct (begin_cmd_sum s1 t c st2 ev0 done P1 Ht H) as [Hpl _].
+  assert (Pev : forall e, In e ev0 -> c14_plain e) by (intros e He; destruct (Hpl e He); apply ghost_c14_plain; assumption).
+  change (evs t (ECmd c :: ev0)) with ((t, ECmd c) :: evs t ev0). cbn [fold_left].
+  set (m1 := m14r_step m (t, ECmd c)).
+  apply (e_msame _ _ m1); [|apply m14r_plain_fold; exact Pev].
+  assert (Own : get_tid t (m14_owner m) = if 0 <=? tpipe (thr s0 t) then Some (tpipe (thr s0 t)) else None) by (apply owner_of; auto).
+  assert (Tp1 : tpipe (th s1 t) = tpipe (thr s0 t)) by (unfold s1; thr_simpl).
+  (* the install alone *)
+  assert (Inst : (forall x, c <> CLSend x) -> c <> CPanic -> ERel ENone s1 m1).
+  { intros N1 N2. assert (S1 : r14_same m m1) by (apply m14r_plain_step; destruct c; try exact Logic.I; [exfalso; eapply N1; reflexivity|exfalso; apply N2; reflexivity]).
+    unfold s1. apply (e_idle_same s0 _ _ _ t [] R S1);
+      [reflexivity|intros ? ?; thr_simpl|exact Hc|thr_simpl; exact Hc|intros ? []|reflexivity|thr_simpl|thr_simpl| |reflexivity
+      |intros ? ? G; exact G|intros ? ? G; exact G|intro q; repeat split; reflexivity].
+    intros _ x. cbn -[Nat.eqb]. unfold updN, th. rewrite Nat.eqb_refl. cbn. intro E. inversion E. eapply N1; eauto. }
+  assert (Plain : forall new, (forall x, c <> CLSend x) -> c <> CPanic -> st2 = set_cont s1 t new \/ (st2 = s1 /\ new = []) ->
+                  (forall j, In j new -> eqi j) -> cont_dels new = [] -> ERel ENone st2 m1).
+  { intros new N1 N2 Est Hq Hd. pose proof (Inst N1 N2) as R1.
+    destruct Est as [->|[-> ->]]; [|exact R1].
+    apply (e_idle_same s1 _ m1 m1 t new R1 (r14_same_refl m1));
+      [reflexivity|intros ? ?; thr_simpl|unfold s1; thr_simpl; exact Hc|thr_simpl|exact Hq|exact Hd|thr_simpl|thr_simpl| |reflexivity
+      |intros ? ? G; exact G|intros ? ? G; exact G|intro q; repeat split; reflexivity].
+    intros _ x. unfold s1. cbn -[Nat.eqb]. unfold updN, th. rewrite ?Nat.eqb_refl. cbn -[Nat.eqb]. unfold updN, th. rewrite ?Nat.eqb_refl. cbn -[Nat.eqb]. intro E. inversion E. eapply N1; eauto. }
+  assert (Hc1 : tcont (thr s1 t) = []) by (unfold s1; thr_simpl; exact Hc).
+  assert (Ht1 : (t < nthr s1)%nat) by exact Ht.
+  assert (Hcu1 : tcur (thr s1 t) = Some c) by (unfold s1; thr_simpl).
+  destruct c as [w|w|c0 x|c0|w|n| | | | | |c0|c0|p0|p0 x|p0| |x| | ]; cbn [begin_cmd pendE] in *.
+  - (* CWake *)
+    destruct (wreg s1 w) as [wi|]; [|inversion H; subst; apply (Plain []); auto; try (intros; discriminate); intros j []].
+    destruct (climb_start s1 wi (Some (HPlain w))) as [i|] eqn:E; inversion H; subst; clear H;
+      [|apply (Plain []); auto; try (intros; discriminate); intros j []].
+    apply climb_at_climb in E. destruct E as [k ->].
+    pose proof (Inst ltac:(intros; discriminate) ltac:(discriminate)) as R1.
+    eid s1 t R1 (r14_same_refl m1) Hc1 Hcu1 [IClimb k].
+  - (* CDropW *)
+    pose proof (Inst ltac:(intros; discriminate) ltac:(discriminate)) as R1.
+    destruct (wreg s1 w) as [wi|] eqn:Ew; [|inversion H; subst; exact R1].
+    destruct (wbusy s1 w); inversion H; subst; clear H.
+    + eid s1 t R1 (r14_same_refl m1) Hc1 Hcu1 [ILock MDL (LPush (wbit wi) (wbm wi) (HPlain w))].
+    + eid s1 t R1 (r14_same_refl m1) Hc1 Hcu1 (@nil instr).
+  - destruct (Waker.creg (chs s1 c0)); inversion H; subst; clear H;
+      [apply (Plain [ILock (MCh c0) (LChSend c0 x)])|apply (Plain [])]; auto; try (intros; discriminate); try pe_q.
+  - destruct (Waker.creg (chs s1 c0)); inversion H; subst; clear H;
+      [apply (Plain [ILock (MCh c0) (LChClosed c0)])|apply (Plain [])]; auto; try (intros; discriminate); try pe_q.
+  - (* CNew *)
+    pose proof (Inst ltac:(intros; discriminate) ltac:(discriminate)) as R1.
+    destruct (negb (is_main t) || wused s1 w || (1000000 <=? w) || (w <? 0)); [inversion H; subst; exact R1|].
+    destruct (wh_add s1 (HPlain w)) as [[sa wi]|] eqn:E; inversion H; subst; clear H; [|exact R1].
+    assert (Hh : HPlain w <> HReserved) by discriminate.
+    destruct (wh_add_post s1 _ sa wi I1 Hh E) as [Hfresh [Hget [Hold [Ed [Et [En [Ew [Eu [Ec Ep]]]]]]]]].
+    pose proof (wh_add_new s1 _ sa wi I1 Hh E) as Hnew.
+    apply (e_idle_same s1 _ m1 m1 t [] R1 (r14_same_refl m1));
+      [exact En|intros u Hu; cbn; rewrite Et; reflexivity|exact Hc1|cbn; rewrite Et; exact Hc1|intros ? []|reflexivity
+      |cbn; rewrite Et; reflexivity|cbn; rewrite Et; reflexivity|intros _ x0; cbn; rewrite Et, Hcu1; discriminate|exact Ed
+      |intros x0 h0 G; cbn; apply Hold; exact G| |intro q; cbn; rewrite Ep; repeat split; reflexivity].
+    intros x0 q G. cbn in G. destruct (Hnew x0 _ G) as [G0|[[_ G0]|G0]]; [exact G0|discriminate G0|discriminate G0].
+  - (* CFill *)
+    pose proof (Inst ltac:(intros; discriminate) ltac:(discriminate)) as R1.
+    destruct (negb (is_main t)); [inversion H; subst; exact R1|].
+    destruct (fill_loop (Z.to_nat n) s1 []) as [sa ev1] eqn:E. inversion H; subst; clear H.
+    destruct (fill_loop_slab _ _ _ _ _ I1 E) as [A1 [A2 [A3 [A4 [A5 A6]]]]].
+    apply (e_idle_same s1 _ m1 m1 t [] R1 (r14_same_refl m1));
+      [exact A6|intros u Hu; rewrite A3; reflexivity|exact Hc1|rewrite A3; exact Hc1|intros ? []|reflexivity
+      |rewrite A3; reflexivity|rewrite A3; reflexivity|intros _ x0; rewrite A3, Hcu1; discriminate|exact A4
+      |exact A1|exact A2|intro q; rewrite A5; repeat split; reflexivity].
+  - pose proof (Inst ltac:(intros; discriminate) ltac:(discriminate)) as R1.
+    destruct (negb (is_main t)); inversion H; subst; clear H; [exact R1|]. eid s1 t R1 (r14_same_refl m1) Hc1 Hcu1 [ITopSwap; IRun].
+  - (* CPollIf *)
+    pose proof (Inst ltac:(intros; discriminate) ltac:(discriminate)) as R1.
+    destruct (negb (is_main t)); [inversion H; subst; exact R1|].
+    destruct (gnotified s1); inversion H; subst; clear H; [|exact R1]. eid s1 t R1 (r14_same_refl m1) Hc1 Hcu1 [ITopSwap; IRun].
+  - (* CSpawn *)
+    pose proof (Inst ltac:(intros; discriminate) ltac:(discriminate)) as R1.
+    destruct (negb (is_main t)); inversion H; subst; clear H; [exact R1|].
+    apply (e_spawn s1 _ m1 t (-1) false 0 0 R1);
+      [reflexivity
+      |intros u Hu; cbn -[Nat.eqb]; unfold updN, th; match goal with |- context [Nat.eqb ?a ?b] => destruct (Nat.eqb_spec a b) as [Y|Y] end; [exfalso; apply Hu; exact Y|reflexivity]
+      |cbn -[Nat.eqb]; unfold updN, th; rewrite Nat.eqb_refl; reflexivity
+      |cbn -[Nat.eqb]; unfold updN, th; rewrite Nat.eqb_refl; reflexivity
+      |cbn -[Nat.eqb]; unfold updN, th; rewrite Nat.eqb_refl; reflexivity
+      |cbn -[Nat.eqb]; unfold updN, th; rewrite Nat.eqb_refl; reflexivity
+      |split; [intro L; exfalso; lia|intro L; discriminate L]
+      |exact Ht|left; exact Hcu1|exact Hc1|reflexivity|intros ? ? G; exact G|intros ? ? G; left; exact G|intros; reflexivity|intro L; discriminate L].
+  - pose proof (Inst ltac:(intros; discriminate) ltac:(discriminate)) as R1.
+    destruct (negb (is_main t)); inversion H; subst; clear H; [exact R1|]. eid s1 t R1 (r14_same_refl m1) Hc1 Hcu1 [IJoin].
+  - pose proof (Inst ltac:(intros; discriminate) ltac:(discriminate)) as R1.
+    destruct (negb (is_main t)); inversion H; subst; clear H; [exact R1|]. eid s1 t R1 (r14_same_refl m1) Hc1 Hcu1 [IIdle].
+  - (* CCNew *)
+    pose proof (Inst ltac:(intros; discriminate) ltac:(discriminate)) as R1. clear Inst Plain. clearbody s1.
+    destruct (negb (is_main t) || cexists (chs s1 c0)); [inversion H; subst; exact R1|].
+    destruct (wh_add s1 (HChan c0)) as [[sa wi]|] eqn:E; inversion H; subst; clear H; [|exact R1].
+    assert (Hh : HChan c0 <> HReserved) by discriminate.
+    destruct (wh_add_post s1 _ sa wi I1 Hh E) as [Hfresh [Hget [Hold [Ed [Et [En [Ew [Eu [Ec Ep]]]]]]]]].
+    pose proof (wh_add_new s1 _ sa wi I1 Hh E) as Hnew.
+    apply (e_idle_same s1 _ m1 m1 t [ILock (MCh c0) (LChInit c0)] R1 (r14_same_refl m1));
+      [exact En|intros u Hu; cbn -[Nat.eqb]; unfold updN, th; destruct (Nat.eqb_spec u t); [contradiction|]; cbn; rewrite Et; reflexivity|exact Hc1
+      |cbn -[Nat.eqb]; unfold updN, th; rewrite Nat.eqb_refl; reflexivity|pe_q|reflexivity
+      |cbn -[Nat.eqb]; unfold updN, th; rewrite Nat.eqb_refl; cbn; rewrite Et; reflexivity
+      |cbn -[Nat.eqb]; unfold updN, th; rewrite Nat.eqb_refl; cbn; rewrite Et; reflexivity
+      |intros _ x0; cbn -[Nat.eqb]; unfold updN, th; rewrite Nat.eqb_refl; cbn; rewrite Et; unfold th in Hcu1; rewrite Hcu1; discriminate|exact Ed
+      |intros x0 h0 G; cbn; apply Hold; exact G| |intro q; cbn; rewrite Ep; repeat split; reflexivity].
+    intros x0 q G. cbn in G. destruct (Hnew x0 _ G) as [G0|[[_ G0]|G0]]; [exact G0|discriminate G0|discriminate G0].
+  - (* CCDrop *)
+    pose proof (Inst ltac:(intros; discriminate) ltac:(discriminate)) as R1.
+    destruct (negb (is_main t) || negb (cguard (chs s1 c0))); inversion H; subst; clear H; [exact R1|].
+    eid s1 t R1 (r14_same_refl m1) Hc1 Hcu1 [ILock (MCh c0) (LChClose c0)].
+  - (* CPNew *)
+    pose proof (Inst ltac:(intros; discriminate) ltac:(discriminate)) as R1. clear Inst Plain. clearbody s1.
+    destruct (negb (is_main t) || pexists (pps s1 p0)) eqn:Eg; [inversion H; subst; exact R1|].
+    apply orb_false_iff in Eg. destruct Eg as [_ Eex].
+    destruct (wh_add s1 (HPipe p0)) as [[sa wi]|] eqn:E; inversion H; subst; clear H; [|exact R1].
+    assert (Hh : HPipe p0 <> HReserved) by discriminate.
+    destruct (wh_add_post s1 _ sa wi I1 Hh E) as [Hfresh [Hget [Hold [Ed [Et [En [Ew [Eu [Ec Ep]]]]]]]]].
+    pose proof (wh_add_new s1 _ sa wi I1 Hh E) as Hnew.
+    apply (e_spawn s1 _ m1 t p0 true (wbit wi) (wbm wi) R1).
+    + cbn. rewrite En. reflexivity.
+    + intros u Hu. cbn -[Nat.eqb]. unfold updN, th. rewrite En. destruct (Nat.eqb_spec u (nthr s1)) as [Y|Y]; [exfalso; apply Hu; exact Y|]. cbn. rewrite Et. reflexivity.
+    + cbn -[Nat.eqb]. unfold updN, th. rewrite En, Nat.eqb_refl. reflexivity.
+    + cbn -[Nat.eqb]. unfold updN, th. rewrite En, Nat.eqb_refl. reflexivity.
+    + cbn -[Nat.eqb]. unfold updN, th. rewrite En, Nat.eqb_refl. reflexivity.
+    + cbn -[Nat.eqb]. unfold updN, th. rewrite En, Nat.eqb_refl. reflexivity.
+    + split; [reflexivity|intros _; exact Hok].
+    + exact Ht1.
+    + right. exact Hcu1.
+    + exact Hc1.
+    + cbn. exact Ed.
+    + intros x0 h0 G. cbn. apply Hold. exact G.
+    + intros x0 q' G. cbn in G. destruct (Hnew x0 _ G) as [G0|[[G1 G0]|G0]]; [left; exact G0| |discriminate G0].
+      inversion G0; subst. right. auto.
+    + intros q' [Y|Y]; [discriminate Y|]. cbn. unfold updZ. destruct (Z.eqb_spec q' p0); [contradiction|]. rewrite Ep. reflexivity.
+    + intros _. split; [exact Eex|]. cbn. unfold updZ. rewrite Z.eqb_refl. cbn. repeat split; try reflexivity. exact Hget.
+  - pose proof (Inst ltac:(intros; discriminate) ltac:(discriminate)) as R1.
+    destruct (negb (is_main t) || negb (phandle (pps s1 p0))); inversion H; subst; clear H; [exact R1|].
+    eid s1 t R1 (r14_same_refl m1) Hc1 Hcu1 [ILock (MPq p0) (LPqSend p0 x)].
+  - pose proof (Inst ltac:(intros; discriminate) ltac:(discriminate)) as R1.
+    destruct (negb (is_main t) || negb (phandle (pps s1 p0))); inversion H; subst; clear H; [exact R1|].
+    eid s1 t R1 (r14_same_refl m1) Hc1 Hcu1 [ILock (MPq p0) (LPqCancelSet p0)].
+  - pose proof (Inst ltac:(intros; discriminate) ltac:(discriminate)) as R1.
+    destruct (tpipe (th s1 t) <? 0); inversion H; subst; clear H; [exact R1|].
+    eid s1 t R1 (r14_same_refl m1) Hc1 Hcu1 [ILock (MPq (tpipe (th s1 t))) (LPqRecv (tpipe (th s1 t)))].
+  - (* CLSend *)
+    assert (Tf1 : tfinal (thr s1 t) = tfinal (thr s0 t)) by (unfold s1; thr_simpl).
+    destruct (Z.ltb_spec (tpipe (th s1 t)) 0) as [L|L]; inversion H; subst st2 ev0 done; clear H.
+    + (* not a worker: the monitor does not attribute the command to a pipe *)
+      rewrite Tp1 in L. assert (Ow : get_tid t (m14_owner m) = None) by (rewrite Own; destruct (Z.leb_spec 0 (tpipe (thr s0 t))); [lia|reflexivity]).
+      assert (S1 : r14_same m m1).
+      { unfold m1, m14r_step, m14_step. cbn. rewrite Ow. constructor; reflexivity. }
+      unfold s1. apply (e_idle_same s0 _ _ _ t [] R S1);
+        [reflexivity|intros ? ?; thr_simpl|exact Hc|thr_simpl; exact Hc|intros ? []|reflexivity|thr_simpl|thr_simpl| |reflexivity
+        |intros ? ? G; exact G|intros ? ? G; exact G|intro q; repeat split; reflexivity].
+      intros [_ W]. lia.
+    + rewrite Tp1 in *. set (p := tpipe (thr s0 t)) in *.
+      assert (Ow : get_tid t (m14_owner m) = Some p) by (rewrite Own; destruct (Z.leb_spec 0 p); [reflexivity|lia]).
+      assert (Em1 : m14_owner m1 = m14_owner m /\ m14_lsend m1 = m14_lsend m ++ [(p, x)] /\ m14_lsdone m1 = m14_lsdone m /\ m14_fwd m1 = m14_fwd m /\
+                    m14_term m1 = m14_term m /\ m14_panic m1 = m14_panic m /\ m14_exited m1 = m14_exited m /\ m14_bad m1 = m14_bad m /\
+                    b_nthr (m14_b m1) = b_nthr (m14_b m)).
+      { unfold m1, m14r_step, m14_step. cbn. rewrite Ow. cbn. repeat split; reflexivity. }
+      destruct Em1 as [E1 [E2 [E3 [E4 [E5 [E6 [E7 [E8 E9]]]]]]]].
+      apply (e_idle s0 _ m m1 t [ILock (MPq p) (LPqLSend p x)] p [x] false R);
+        [exact E1| |exact E3|exact E4|exact E5| |exact E7|exact E8|exact E9|reflexivity
+        |intros u Hu; unfold s1; thr_simpl|exact Hc|unfold s1; thr_simpl| | | | | |reflexivity
+        |unfold s1; thr_simpl| | | |reflexivity|intros ? ? G; exact G|intros ? ? G; exact G|intro q; repeat split; reflexivity].
+      * intro q. rewrite E2, on_pipe_app. cbn. rewrite (Z.eqb_sym p q). destruct (q =? p); reflexivity.
+      * intro q. rewrite E6, andb_false_r, orb_false_r. reflexivity.
+      * intro q. cbn. rewrite (Z.eqb_sym p q). destruct (q =? p); reflexivity.
+      * intro q. reflexivity.
+      * intros x0 q [].
+      * intros j [<-|[]]. exact Logic.I.
+      * intros m0 q [X0|[]]. discriminate X0.
+      * unfold s1. cbn -[Nat.eqb]. unfold updN, th. rewrite ?Nat.eqb_refl. cbn -[Nat.eqb]. unfold updN, th. rewrite ?Nat.eqb_refl. reflexivity.
+      * intros _ x0 Hx. rewrite E2, on_pipe_app. apply in_or_app. right. cbn. rewrite Z.eqb_refl.
+        revert Hx. unfold s1. cbn -[Nat.eqb]. unfold updN, th. rewrite ?Nat.eqb_refl. cbn -[Nat.eqb]. unfold updN, th. rewrite ?Nat.eqb_refl. cbn. intro Hx. inversion Hx. left. reflexivity.
+      * intros _. split; [split; [exact Ht|exact L]|]. split; [reflexivity|intro Y; discriminate Y].
+  - pose proof (Inst ltac:(intros; discriminate) ltac:(discriminate)) as R1.
+    destruct (tpipe (th s1 t) <? 0); inversion H; subst; clear H; [exact R1|].
+    eid s1 t R1 (r14_same_refl m1) Hc1 Hcu1 [ILock (MPq (tpipe (th s1 t))) (LPqCancelGet (tpipe (th s1 t)))].
+  - (* CPanic *)
+    destruct (Z.ltb_spec (tpipe (th s1 t)) 0) as [L|L]; inversion H; subst st2 ev0 done; clear H.
+    + rewrite Tp1 in L. assert (Ow : get_tid t (m14_owner m) = None) by (rewrite Own; destruct (Z.leb_spec 0 (tpipe (thr s0 t))); [lia|reflexivity]).
+      assert (S1 : r14_same m m1).
+      { unfold m1, m14r_step, m14_step. cbn. rewrite Ow. constructor; reflexivity. }
+      unfold s1. apply (e_idle_same s0 _ _ _ t [] R S1);
+        [reflexivity|intros ? ?; thr_simpl|exact Hc|thr_simpl; exact Hc|intros ? []|reflexivity|thr_simpl|thr_simpl| |reflexivity
+        |intros ? ? G; exact G|intros ? ? G; exact G|intro q; repeat split; reflexivity].
+      intros _ x0. cbn -[Nat.eqb]. unfold updN, th. rewrite ?Nat.eqb_refl. cbn. discriminate.
+    + rewrite Tp1 in *. set (p := tpipe (thr s0 t)) in *.
+      assert (Ow : get_tid t (m14_owner m) = Some p) by (rewrite Own; destruct (Z.leb_spec 0 p); [reflexivity|lia]).
+      assert (Em1 : m14_owner m1 = m14_owner m /\ m14_lsend m1 = m14_lsend m /\ m14_lsdone m1 = m14_lsdone m /\ m14_fwd m1 = m14_fwd m /\
+                    m14_term m1 = m14_term m /\ m14_panic m1 = p :: m14_panic m /\ m14_exited m1 = m14_exited m /\ m14_bad m1 = m14_bad m /\
+                    b_nthr (m14_b m1) = b_nthr (m14_b m)).
+      { unfold m1, m14r_step, m14_step. cbn. rewrite Ow. cbn. repeat split; reflexivity. }
+      destruct Em1 as [E1 [E2 [E3 [E4 [E5 [E6 [E7 [E8 E9]]]]]]]].
+      destruct (pk s0 Q t Ht L) as [_ Hpush]; [right; unfold th in Hs; rewrite Hs; discriminate|].
+      apply (e_idle s0 _ m m1 t [] p [] true R);
+        [exact E1| |exact E3|exact E4|exact E5| |exact E7|exact E8|exact E9|reflexivity
+        |intros u Hu; unfold s1; thr_simpl| exact Hc | | | | | | |reflexivity
+        | | | | |reflexivity|intros ? ? G; exact G|intros ? ? G; exact G|intro q; repeat split; reflexivity].
+      * intro q. rewrite E2. destruct (q =? p); rewrite app_nil_r; reflexivity.
+      * intro q. rewrite E6. unfold memZ. cbn. rewrite andb_true_r, orb_comm, (Z.eqb_sym p q). reflexivity.
+      * unfold s1. cbn -[Nat.eqb]. unfold updN, th. rewrite ?Nat.eqb_refl. cbn -[Nat.eqb]. unfold updN, th. rewrite ?Nat.eqb_refl. cbn. exact Hc.
+      * intro q. destruct (q =? p); reflexivity.
+      * intro q. reflexivity.
+      * intros x0 q [].
+      * intros j [].
+      * intros m0 q [].
+      * unfold s1. cbn -[Nat.eqb]. unfold updN, th. rewrite ?Nat.eqb_refl. cbn -[Nat.eqb]. unfold updN, th. rewrite ?Nat.eqb_refl. reflexivity.
+      * unfold s1. cbn -[Nat.eqb]. unfold updN, th. rewrite ?Nat.eqb_refl. cbn -[Nat.eqb]. unfold updN, th. rewrite ?Nat.eqb_refl. reflexivity.
+      * intros _ x0. unfold s1. cbn -[Nat.eqb]. unfold updN, th. rewrite ?Nat.eqb_refl. cbn -[Nat.eqb]. unfold updN, th. rewrite ?Nat.eqb_refl. cbn. intro Y. discriminate Y.
+      * intros _. split; [split; [exact Ht|exact L]|]. split; [reflexivity|]. intros _. exists (wbit (pw (pps s0 p))). exact Hpush.
+Qed.
